@@ -37,6 +37,9 @@ func driveOnce(plan []M, out *Out, _ []string) {
 	for _, sc := range plan {
 		if n := num(sc, "burst"); n > 0 {
 			onceBurst(sc, out, n)
+			if onceAbandoned {
+				return
+			}
 			continue
 		}
 		arity, before, during, after := num(sc, "arity"), num(sc, "before"), num(sc, "during"), num(sc, "after")
@@ -192,10 +195,18 @@ func driveOnce(plan []M, out *Out, _ []string) {
 			time.Sleep(20 * time.Millisecond)
 		}
 		close(gate)
-		wg.Wait()
+		if !waitPatient(&wg, 30*time.Second) {
+			// the action has been released and nothing else holds the callers: a Do that does not come back is not explained by any
+			// action of the validator ("every Do call returns"); the stuck goroutines cannot be removed, so the run ends here
+			log(M{"ev": "stall", "what": "callers did not return from Do", "stacks": parkedSummary()})
+			return
+		}
 		if after > 0 {
 			start(after)
-			wg.Wait()
+			if !waitPatient(&wg, 30*time.Second) {
+				log(M{"ev": "stall", "what": "late callers did not return from Do", "stacks": parkedSummary()})
+				return
+			}
 		}
 		log(M{"ev": "end"})
 	}
@@ -239,7 +250,12 @@ func onceBurst(sc M, out *Out, n int) {
 			}(t)
 		}
 		close(start)
-		wg.Wait()
+		if !waitPatient(&wg, 30*time.Second) {
+			out.Emit(M{"ev": "reset", "arity": arity})
+			out.Emit(M{"ev": "stall", "what": "burst callers did not return from Do", "stacks": parkedSummary()})
+			onceAbandoned = true
+			return
+		}
 		agree := 0
 		if len(started) > 0 {
 			f := started[0]
@@ -257,3 +273,17 @@ func onceBurst(sc M, out *Out, n int) {
 		out.Emit(M{"ev": "burst", "n": n, "starts": len(started), "agree": agree})
 	}
 }
+
+// onceAbandoned: a scenario ended with callers stuck inside Do; the remaining scenarios are not run (the stuck goroutines stay).
+var onceAbandoned bool
+
+// waitPatient waits for wg for at most d, counted in one-millisecond wake-ups (see patient.go): false = still waiting.
+func waitPatient(wg *sync.WaitGroup, d time.Duration) bool {
+	done := make(chan struct{})
+	go func() { wg.Wait(); close(done) }()
+	_, ok := patientRecv(done, d)
+	return ok
+}
+
+// parkedSummary: how many goroutines sit in sync.Once / a mutex right now (for the stall line).
+func parkedSummary() int { return countParkedInOnce() }
